@@ -33,6 +33,14 @@ CHECKS = {
              "exactly the acknowledged batches (plus possibly the one in flight) and the contents their fold; sampled kill "
              "points are nested (kill inside recovery) or chained (recover, write more, kill again, 2-3 links).",
         note="Kill points are system-call boundaries of the recorded trace; background/foreground interleaving as recorded."),
+    "C04": dict(
+        cat="fault_enumeration", engine="crashmon+concmon", design="3/C04",
+        technique="runtime monitoring: crash-image enumeration with marker oracle + snapshot/iterator views checked under a serialising scheduler",
+        text="Crash half: large batches spanning several log blocks, every crash point and image kind, recovered contents "
+             "must be a fold of whole batches. Concurrent half: under a seeded serialising scheduler with yield points "
+             "between the memtable inserts of one batch, every snapshot/iterator view must show each writer's keys after a "
+             "whole number of its batches.",
+        note="Crash model of C02; schedules sampled, not enumerated."),
     "C05": dict(
         cat="fault_enumeration", engine="crashmon", design="3/C05",
         technique="runtime monitoring: real recovery of every enumerated crash image + second open + follow-up workload + nested crashes",
@@ -52,6 +60,20 @@ CHECKS = {
         text="Live iterators are driven by random positioning/stepping sequences with direction changes and compared "
              "(valid/key/value/status) with a model cursor after every call, while writes/compactions/file deletion proceed.",
         note="Iterator view = model version at creation or of its snapshot."),
+    "C08": dict(
+        cat="exploration", engine="concmon+vsched", design="3/C08",
+        technique="runtime monitoring: client-boundary histories under a seeded serialising scheduler, offline linearizability checkers",
+        text="Histories of 2..8 threads recorded at the client boundary under a seeded serialising scheduler (random, PCT, "
+             "background starved/greedy; yield points at locks, condvars, libc I/O and inside batch inserts) and on native "
+             "threads with delays; checked by SWMR-register, zone (shared keys), consistent-cut and final-state checkers.",
+        note="Schedules are sampled; scheduler executes under sequential consistency; logical clock = scheduler steps."),
+    "C09": dict(
+        cat="exploration", engine="concmon+vsched", design="3/C09",
+        technique="runtime monitoring: logical deadlock / lost wake-up detector in a serialising scheduler that models mutexes and condition variables",
+        text="Stall scenarios run under every scheduler strategy; because mutexes and condition variables are modelled the "
+             "scheduler knows when no thread can run while some are unfinished (deadlock / lost wake-up) and when a call "
+             "exceeds the step bound; spurious wake-ups are injected.",
+        note="Bounded liveness (step bound); close concurrent with other calls on the handle is outside the contract."),
     "C12": dict(
         cat="fault_enumeration", engine="faultmon+iomon", design="3/C12",
         technique="runtime monitoring: fault injection at the libc boundary, statuses + post-fault recovery checked against the acknowledged history (+ASan/UBSan pass)",
